@@ -25,7 +25,7 @@ const fuel = 400000
 
 var env *compa.Env
 var workDir string
-var batchNo int
+var batchNo, identical int
 
 type pair struct {
 	src  string
@@ -50,6 +50,11 @@ func runPairs(srcs []string) []pair {
 			ps[i].xerr = "PANIC " + esc
 		case err != nil:
 			ps[i].xerr = err.Error()
+		case compa.SameGoAST([]byte(s), out):
+			// the written Go is the same program up to layout: one binary serves both
+			ps[i].xsrc = out
+			idxB[i] = idxA[i]
+			identical++
 		default:
 			ps[i].xsrc = out
 			idxB[i] = len(progs)
@@ -89,7 +94,7 @@ func canon(r compa.RunResult) string {
 		return "TIMEOUT"
 	}
 	p := "none"
-	if r.Panic != "" {
+	if r.Panicked {
 		p = vh.HexS(normPanic(r.Panic))
 	}
 	return fmt.Sprintf("exit=%d panic=%s stdout=%s", r.Exit, p, vh.HexS(r.Stdout))
@@ -146,15 +151,15 @@ func shrinkLines(src, key string, rounds int) string {
 		lines := strings.SplitAfter(src, "\n")
 		var cands []string
 		step := 1
-		if len(lines) > 48 {
-			step = len(lines) / 24
+		if len(lines) > 20 {
+			step = len(lines) / 10
 		}
 		for i := 0; i+step <= len(lines); i += step {
 			c := strings.Join(append(append([]string{}, lines[:i]...), lines[i+step:]...), "")
 			cands = append(cands, c)
 		}
-		if len(cands) > 40 {
-			cands = cands[:40]
+		if len(cands) > 20 {
+			cands = cands[:20]
 		}
 		if len(cands) == 0 {
 			break
@@ -184,6 +189,9 @@ func main() {
 	f := vh.ParseFlags()
 	o := vh.NewOut(f.Out)
 	defer o.Close()
+	if abs, err := filepath.Abs(f.Out); err == nil {
+		f.Out = abs
+	}
 	workDir = filepath.Join(f.Out, "work")
 	os.MkdirAll(workDir, 0o755)
 	var err error
@@ -282,7 +290,7 @@ func main() {
 			switch {
 			case p.a.Timeout:
 				o.Count("outcome_timeout")
-			case p.a.Panic != "":
+			case p.a.Panicked:
 				o.Count("outcome_panic")
 			case p.a.Exit != 0:
 				o.Count("outcome_exit")
@@ -293,7 +301,7 @@ func main() {
 				src := j.src
 				if !seenKey[key] {
 					seenKey[key] = true
-					src = shrinkLines(src, key, 4)
+					src = shrinkLines(src, key, 3)
 				}
 				o.Oracle(key, "gosrc\t"+vh.HexS(src), j.origin+": "+detail)
 			}
@@ -309,4 +317,5 @@ func main() {
 		}
 	}
 	o.Stats["golist_slow_path"] = env.NList
+	o.Stats["xgo_output_same_ast_as_input"] = identical
 }
